@@ -8,17 +8,17 @@ SPEC = dict(
            74: "remote_device_set_up_twice", 75: "completed_without_trust", 76: "spine_datagrams_not_exactly_once_in_order",
            77: "completed_after_user_cancel_in_hello_phase"},
     rule="shipdrv -prop pair: a real client-role and a real server-role ship.ShipConnection joined by two FIFO queues owned "
-         "by the harness, which is the scheduler. 8 directed configurations first (among them the recorded finding), then "
+         "by the harness, which is the scheduler. 11 directed configurations first (among them the recorded finding), then "
          "random configurations (paired/auto/allow/approves/cancels x stored-id unknown/right/wrong per side) with a random "
          "schedule of the labels of Pair.v: deliver the oldest frame in either direction, approve, cancel, timer expiry on "
-         "either side (only when nothing else can happen and the user has acted), a real 1.25 s wait for the time.After "
+         "either side (only when nothing else can happen and the user has acted - and, in the directed patient runs and a third of the random ones, up to three expiries of the pending server's timer before the user acts: prolongation rounds), a real 1.25 s wait for the time.After "
          "goroutines; a CloseDataConnection travels behind the frames in flight and arrives as ReportConnectionError. "
          "After every label both sides' state, closed flag, timer flag, setup count, Complete seen, SHIP id reported and the "
          "content of both queues (frame kinds decoded from the real bytes) are compared with the model. "
          "distinct = hash of (configuration, label list, summaries); non-trivial = at least 6 labels.",
     trusted=connspec.TRUSTED + ["decode_as (Pair.v): what a frame written by ship-go looks like to each decoder of the peer - validated "
              "through the states the real receiver reaches", "the harness owns the two queues: FIFO, reliable until closed (TCP/websocket semantics assumed)"],
-    assumptions=["timely mode as defined in Pair.timely_next", "the user acts at most once per run"],
+    assumptions=["timely mode as defined in Pair.timely_next; patient mode as defined in PairPatient.patient_next", "the user acts at most once per run"],
     search=dict(driver=0, more=2500),
     manifest=dict(
         text="Theorems (Coq) on the two-endpoint model (client and server connection = the same control model as C01/C04, joined "
@@ -36,7 +36,8 @@ SPEC = dict(
              "client's hello is still in flight makes the server read it as a protocol-handshake message and both sides end "
              "in error); global convergence under arbitrary delays (A3/A4 of DESIGN.md) is not proved. Tie: per-label "
              "differential comparison of both real endpoints and both queues with the model; outcome monitor evaluated on the "
-             "implementation's summaries.",
+             "implementation's summaries. "
+             "Patient mode (PairPatient.v): while the user has not acted the pending server's timer may expire any number of times (prolongation request, answer, re-arm) and the approval or cancel comes between any two rounds - a second certified closure for all 288 configurations, safety everywhere and the correct outcome in every state without successor (C03_patient_agreement_partial; approval restricted to moments at which no hello of the client is under way - the recorded finding). The pair driver schedules such rounds; a trusted pair whose own last summary shows both sides ended with nothing in flight and no timer other than prolongation expiries is reported as trusted_pair_did_not_complete.",
         note="Trusted: Coq kernel + vm_compute (288 closure tables of <= ~120 states, ranking tables computed by an unverified "
              "relaxation and checked); the pair driver (harness-owned FIFO queues stand for the websocket); decode_as; timers "
              "ideal (C14). No axioms.",
